@@ -164,9 +164,119 @@ macro_rules! by_shards {
     };
 }
 
+/// c01.agg <sh|mal> <pseudonyms> <records>: real `aggregate_reports` on one shard; the i-th report carries
+/// the i-th pseudonym (instead of a PRF value). Response: rows `bk:v` in output order, comma separated.
+fn exec_agg(mal: bool, tags: Vec<u64>, records: Vec<TestHybridRecord>, seed: u64) -> String {
+    use crate::{protocol::hybrid::agg::aggregate_reports, report::hybrid::{AggregateableHybridReport, PrfHybridReport}};
+    let r = block_on_timeout(120, async move {
+        let mut config = TestWorldConfig::default().with_timeout_secs(60);
+        config.seed = seed;
+        let world = TestWorld::<WithShards<1>>::with_shards(config);
+        macro_rules! body {
+            () => {
+                |ctx, input: Vec<HybridReport<BA8, BA3>>| {
+                    let tags = tags.clone();
+                    async move {
+                        let prf: Vec<PrfHybridReport<BA8, BA3>> = input
+                            .into_iter()
+                            .zip(tags)
+                            .map(|(r, t)| {
+                                let r: IndistinguishableHybridReport<BA8, BA3> = r.into();
+                                PrfHybridReport { match_key: t, value: r.value, breakdown_key: r.breakdown_key }
+                            })
+                            .collect();
+                        aggregate_reports::<BA8, BA3, _>(ctx, prf).await
+                    }
+                }
+            };
+        }
+        let results: Vec<[Result<Vec<AggregateableHybridReport<BA8, BA3>>, Error>; 3]> = if mal {
+            world.malicious(records.into_iter(), body!()).await
+        } else {
+            world.semi_honest(records.into_iter(), body!()).await
+        };
+        let [a, b, c] = &results[0];
+        match (a, b, c) {
+            (Ok(a), Ok(b), Ok(c)) => {
+                if a.len() != b.len() || b.len() != c.len() {
+                    return "length-mismatch".to_string();
+                }
+                let rows: Vec<String> = (0..a.len())
+                    .map(|i| {
+                        let bk = [a[i].breakdown_key.clone(), b[i].breakdown_key.clone(), c[i].breakdown_key.clone()].reconstruct().as_u128();
+                        let v = [a[i].value.clone(), b[i].value.clone(), c[i].value.clone()].reconstruct().as_u128();
+                        format!("{bk}:{v}")
+                    })
+                    .collect();
+                if rows.is_empty() { "-".to_string() } else { rows.join(",") }
+            }
+            _ => [a, b, c].iter().find_map(|r| r.as_ref().err()).map(err_kind).unwrap(),
+        }
+    });
+    r.unwrap_or_else(|e| e)
+}
+
+/// c01.brk <sh|mal> <hv 8|32> <rows bk:v,…>: real `breakdown_reveal_aggregation` (no padding) on one shard.
+fn exec_brk(mal: bool, hv: u32, rows: Vec<(u32, u32)>, seed: u64) -> String {
+    use crate::{
+        protocol::hybrid::breakdown_reveal::breakdown_reveal_aggregation,
+        report::hybrid::AggregateableHybridReport,
+        secret_sharing::{BitDecomposed, TransposeFrom},
+        ff::boolean::Boolean,
+        test_fixture::hybrid::TestAggregateableHybridReport,
+    };
+    let r = block_on_timeout(200, async move {
+        let mut config = TestWorldConfig::default().with_timeout_secs(150);
+        config.seed = seed;
+        let world = TestWorld::<WithShards<1>>::with_shards(config);
+        let inputs = rows.into_iter().map(|(bk, v)| TestAggregateableHybridReport { match_key: (), value: v, breakdown_key: bk });
+        macro_rules! run {
+            ($HV:ty) => {{
+                macro_rules! body {
+                    () => {
+                        |ctx, input: Vec<AggregateableHybridReport<BA8, BA3>>| async move {
+                            let pad = PaddingParameters::no_padding();
+                            match breakdown_reveal_aggregation::<_, BA8, BA3, $HV, 256>(ctx, input, &pad).await {
+                                Ok(r) => Ok(Vec::<Replicated<$HV>>::transposed_from(&r).unwrap()),
+                                Err(e) => Err(e),
+                            }
+                        }
+                    };
+                }
+                let results: Vec<[Result<Vec<Replicated<$HV>>, Error>; 3]> = if mal {
+                    world.malicious(inputs, body!()).await
+                } else {
+                    world.semi_honest(inputs, body!()).await
+                };
+                let [a, b, c] = &results[0];
+                match (a, b, c) {
+                    (Ok(a), Ok(b), Ok(c)) => {
+                        let h: Vec<$HV> = [a.clone(), b.clone(), c.clone()].reconstruct();
+                        nat_list(&h.iter().map(|x| x.as_u128()).collect::<Vec<_>>())
+                    }
+                    _ => [a, b, c].iter().find_map(|r| r.as_ref().err()).map(err_kind).unwrap(),
+                }
+            }};
+        }
+        if hv == 8 { run!(BA8) } else { run!(BA32) }
+    });
+    r.unwrap_or_else(|e| e)
+}
+
+fn req_seed(req: &str) -> u64 {
+    req.bytes().fold(0xcbf2_9ce4_8422_2325u64, |h, b| (h ^ u64::from(b)).wrapping_mul(0x0000_0100_0000_01B3))
+}
+
 pub fn exec(req: &str) -> String {
     let t: Vec<&str> = req.split(' ').collect();
     match t[0] {
+        "c01.agg" => exec_agg(t[1] == "mal", parse_nat_list(t[2]), parse_records(t[3]), req_seed(req)),
+        "c01.brk" => {
+            let rows: Vec<(u32, u32)> = if t[3] == "-" { vec![] } else {
+                t[3].split(',').map(|r| { let p: Vec<&str> = r.split(':').collect(); (p[0].parse().unwrap(), p[1].parse().unwrap()) }).collect()
+            };
+            exec_brk(t[1] == "mal", t[2].parse().unwrap(), rows, req_seed(req))
+        }
         "c01.e2e" => {
             let mal = t[1] == "mal";
             let shards: usize = t[2].parse().unwrap();
@@ -236,6 +346,45 @@ fn assign_str(rng: &mut Rng, n: usize, shards: usize, style: u64) -> String {
         })
         .collect();
     nat_list(&a)
+}
+
+#[test]
+fn verif_c01_stages() {
+    run_suite(
+        "c01_stages",
+        |rng, thorough| {
+            let mut out = vec![];
+            // --- aggregate_reports: pseudonym multiplicities 1,2,3,4; pseudonym order vs arrival order; wrap-around
+            out.push("c01.agg sh 5,5 i:1:3,c:1:4".to_string());
+            out.push("c01.agg mal 9,3,9,3,7 i:1:200,c:2:7,i:1:100,c:2:7,i:3:1".to_string());
+            out.push("c01.agg sh 4,4,4,8,8,8,8,2,2,6 c:1:1,c:1:2,c:1:3,i:2:1,i:2:2,i:2:3,i:2:4,c:3:5,i:3:250,i:4:9".to_string());
+            out.push("c01.agg sh 18446744073709551615,0,18446744073709551615,0 i:1:1,c:2:2,c:1:3,i:2:255".to_string());
+            for _ in 0..(if thorough { 30 } else { 6 }) {
+                let n = 2 + rng.usize_below(24);
+                let nk = 1 + rng.usize_below(n);
+                let keys: Vec<u64> = (0..nk).map(|_| rng.next_u64() >> rng.below(60)).collect();
+                let tags: Vec<u64> = (0..n).map(|_| *rng.pick(&keys)).collect();
+                let recs: Vec<(char, u64, u32)> = (0..n).map(|i| if rng.bool() { ('i', i as u64, rng.below(256) as u32) } else { ('c', i as u64, rng.below(8) as u32) }).collect();
+                let mode = if rng.bool() { "sh" } else { "mal" };
+                out.push(format!("c01.agg {mode} {} {}", nat_list(&tags), rec_str(&recs)));
+            }
+            // --- breakdown_reveal_aggregation: row counts around powers of two and the proof-chunk size (8 in test
+            // builds), several buckets, saturation at 8 bits
+            for (mode, hv, n) in [("sh", 32, 1usize), ("sh", 32, 2), ("mal", 32, 3), ("sh", 32, 7), ("mal", 32, 8), ("sh", 32, 9), ("sh", 32, 17), ("mal", 8, 40), ("sh", 8, 64), ("sh", 8, 65)] {
+                let rows: Vec<String> = (0..n).map(|i| format!("{}:{}", if i % 5 == 4 { 200 } else { 3 }, if hv == 8 { 7 } else { 1 + (i as u32 % 7) })).collect();
+                out.push(format!("c01.brk {mode} {hv} {}", rows.join(",")));
+            }
+            for _ in 0..(if thorough { 20 } else { 3 }) {
+                let n = 1 + rng.usize_below(40);
+                let nb = 1 + rng.below(4);
+                let rows: Vec<String> = (0..n).map(|_| format!("{}:{}", rng.below(nb) * 85, rng.below(8))).collect();
+                let mode = if rng.bool() { "sh" } else { "mal" };
+                out.push(format!("c01.brk {mode} {} {}", if rng.bool() { 8 } else { 32 }, rows.join(",")));
+            }
+            out
+        },
+        exec,
+    );
 }
 
 #[test]
